@@ -50,8 +50,31 @@ class CoopLock(object):
 _LOCK_TYPES = (type(threading.Lock()), type(threading.RLock()))
 
 
+_real_Lock, _real_RLock = threading.Lock, threading.RLock
+
+
+class _ThreadingProxy(object):
+    """Stands in for the `threading` module inside the library's modules: locks created at run time (lazily, per
+    instance) become cooperative too; everything else is the real module."""
+
+    def __getattr__(self, name):
+        return getattr(threading, name)
+
+    @staticmethod
+    def Lock():
+        return CoopLock(_real_Lock())
+
+    @staticmethod
+    def RLock():
+        return CoopLock(_real_RLock())
+
+
+_proxy = _ThreadingProxy()
+
+
 def cooperative_locks(prefix='athlib'):
-    """Wrap every module-level lock of the library in a CoopLock (idempotent).  Returns how many are wrapped."""
+    """Wrap every module-level lock of the library in a CoopLock and make locks it creates later cooperative as well
+    (idempotent).  Returns how many module-level locks are wrapped."""
     n = 0
     for name, m in list(sys.modules.items()):
         if m is None or not (name == prefix or name.startswith(prefix + '.')):
@@ -62,6 +85,12 @@ def cooperative_locks(prefix='athlib'):
                 n += 1
             elif isinstance(v, CoopLock):
                 n += 1
+            elif v is threading:
+                setattr(m, k, _proxy)
+            elif v is _real_Lock:
+                setattr(m, k, _ThreadingProxy.Lock)
+            elif v is _real_RLock:
+                setattr(m, k, _ThreadingProxy.RLock)
     return n
 
 
